@@ -311,6 +311,43 @@ pub fn install_gc(gc: &GcSched, total_allocs_hint: u64) {
     }
 }
 
+/// Simulated RegExp engines (existing seam `set_regexp_provider`): which engine an instance has
+/// is part of its outside world. Flavour 1 folds case for every pattern, flavour 2 takes every
+/// pattern literally; both delegate the matching itself to the default engine.
+pub struct SimRegExp {
+    pub flavour: u8,
+    inner: tsrun::platform::FancyRegexProvider,
+}
+impl tsrun::platform::RegExpProvider for SimRegExp {
+    fn compile(&self, pattern: &str, flags: &str) -> Result<Rc<dyn tsrun::platform::CompiledRegex>, String> {
+        match self.flavour {
+            1 => {
+                let f = if flags.contains('i') { flags.to_string() } else { format!("{}i", flags) };
+                self.inner.compile(pattern, &f)
+            }
+            2 => {
+                let mut lit = String::new();
+                for c in pattern.chars() {
+                    if "\\.+*?()|[]{}^$#&-~/".contains(c) {
+                        lit.push('\\');
+                    }
+                    lit.push(c);
+                }
+                self.inner.compile(&lit, flags)
+            }
+            _ => self.inner.compile(pattern, flags),
+        }
+    }
+}
+
+pub fn new_interp_flavoured(clock_start: i64, random_seed: u64, regexp_flavour: u8) -> Host {
+    let mut h = new_interp(clock_start, random_seed);
+    if regexp_flavour != 0 {
+        h.interp.set_regexp_provider(Rc::new(SimRegExp { flavour: regexp_flavour, inner: tsrun::platform::FancyRegexProvider::new() }));
+    }
+    h
+}
+
 pub struct Host {
     pub interp: Interpreter,
     pub console: Rc<RefCell<Vec<String>>>,
